@@ -22,8 +22,9 @@ LANGS = {
 }
 
 class Template:
-    def __init__(self, name, lang, nnames, ops, analysis='()', distinct=None, note=''):
+    def __init__(self, name, lang, nnames, ops, analysis='()', distinct=None, note='', group=None):
         self.name, self.lang, self.nnames, self.ops, self.analysis, self.note = name, lang, nnames, ops, analysis, note
+        self.group = group        # templates of one group are reorderings of the same history (C12)
         self.distinct = distinct      # optional list of name-index groups assumed pairwise distinct (tied-name variants)
     def key(self): return json.dumps([self.name, self.lang, self.nnames, self.ops, self.analysis, self.distinct], sort_keys=True, default=list)
     def terms(self):
